@@ -23,6 +23,7 @@ func runC44(c *Ctx) {
 	c.Rule("shard-membership-hash-mod", "buffer reset; only selected labels hashed; hash % total == index", 1)
 	c.Rule("shard-label-selection", "by ∧ in-set or ¬by ∧ not-in-set", 1)
 	c.Rule("one-request-per-shard", "indices 0..n-1 once each, same analysis, all merged", 2)
+	c.Rule("label-set-helpers-keep-non-nil", "intersect/without/union never turn a known grouping into nil", 3)
 	p := c.Load("pkg/store/storepb", "pkg/queryfrontend")
 	if p == nil {
 		return
@@ -150,6 +151,144 @@ func runC44(c *Ctx) {
 			func(env map[string]int64) int64 { return b2i((env["by"] == 1 && env["has"] == 1) || (env["by"] == 0 && env["has"] == 0)) })
 		c.Stats["assignments_evaluated"] += n
 		reportE9(c, "shard-label-selection", rel+".shardByLabel", p.Pos(fn.Decl.Pos()), cx, err, "label selection differs from (by ∧ in set) ∨ (without ∧ not in set)")
+	}
+
+	// (2b) nil means "no grouping seen yet" in QueryAnalysis.scopeToLabels; the set helpers must
+	// therefore return a non-nil (possibly empty) slice whenever their first argument is non-nil.
+	if ps := c.Load("pkg/querysharding"); ps != nil {
+		for _, name := range []string{"intersect", "without", "union"} {
+			fn := ps.Func("pkg/querysharding", "", name)
+			construct := "pkg/querysharding." + name
+			if fn == nil {
+				c.Incomplete("label-set-helpers-keep-non-nil", construct, "", "function not found")
+				continue
+			}
+			info := fn.Info()
+			var params []string
+			for _, f := range fn.Decl.Type.Params.List {
+				for _, nm := range f.Names {
+					params = append(params, nm.Name)
+				}
+			}
+			if len(params) != 2 {
+				c.Incomplete("label-set-helpers-keep-non-nil", construct, ps.Pos(fn.Decl.Pos()), "unexpected signature")
+				continue
+			}
+			bad, pos := "", ps.Pos(fn.Decl.Pos())
+			ast.Inspect(fn.Body(), func(nd ast.Node) bool {
+				ret, ok := nd.(*ast.ReturnStmt)
+				if !ok || len(ret.Results) != 1 || bad != "" {
+					return true
+				}
+				r := unparen(ret.Results[0])
+				gs := guardsOf(ps, fn, ret)
+				x := newE9(ps, fn, func(e ast.Expr, text string) string {
+					t := strings.ReplaceAll(text, " ", "")
+					switch t {
+					case "len(" + params[0] + ")":
+						return "la"
+					case "len(" + params[1] + ")":
+						return "lb"
+					case params[0]:
+						return "pa"
+					case params[1]:
+						return "pb"
+					}
+					return ""
+				})
+				// which value is returned?
+				kind := "other"
+				switch v := r.(type) {
+				case *ast.CompositeLit:
+					kind = "non-nil"
+				case *ast.CallExpr:
+					if id, ok := v.Fun.(*ast.Ident); ok && id.Name == "make" {
+						kind = "non-nil"
+					}
+				case *ast.Ident:
+					switch {
+					case isNil(info, v):
+						kind = "nil"
+					case v.Name == params[0]:
+						kind = "pa"
+					case v.Name == params[1]:
+						kind = "pb"
+					default:
+						// local: every definition must build a non-nil slice
+						kind = "non-nil"
+						n := 0
+						ast.Inspect(fn.Body(), func(y ast.Node) bool {
+							switch d := y.(type) {
+							case *ast.AssignStmt:
+								for i, lh := range d.Lhs {
+									if objOf(info, lh) != objOf(info, v) || i >= len(d.Rhs) {
+										continue
+									}
+									n++
+									rr := unparen(d.Rhs[i])
+									okDef := false
+									switch w := rr.(type) {
+									case *ast.CompositeLit:
+										okDef = true
+									case *ast.CallExpr:
+										if id, ok := w.Fun.(*ast.Ident); ok && (id.Name == "make" || (id.Name == "append" && len(w.Args) > 0 && objOf(info, w.Args[0]) == objOf(info, v))) {
+											okDef = true
+										}
+									}
+									if !okDef {
+										kind = "maybe-nil"
+									}
+								}
+							case *ast.ValueSpec:
+								for i, nm := range d.Names {
+									if info.Defs[nm] == objOf(info, v) {
+										n++
+										if i >= len(d.Values) {
+											kind = "maybe-nil" // `var result []string` is nil until something is appended
+										}
+									}
+								}
+							}
+							return true
+						})
+						if n == 0 {
+							kind = "maybe-nil"
+						}
+					}
+				}
+				switch kind {
+				case "non-nil":
+					return true
+				case "maybe-nil", "other":
+					bad, pos = "the returned slice "+canon(r)+" can be nil although the first argument is not (nil means 'no grouping seen yet' to scopeToLabels, so a cancelled grouping would be forgotten and a deeper grouping would make the query shardable again)", ps.Pos(ret.Pos())
+					return true
+				}
+				// nil / parameter: enumerate nil-ness and emptiness; pa/pb atoms: 0 = nil, 1 = non-nil
+				for m := 0; m < 16 && bad == ""; m++ {
+					env := map[string]int64{"pa": int64(m & 1), "pb": int64((m >> 1) & 1), "la": int64((m >> 2) & 1), "lb": int64((m >> 3) & 1)}
+					if (env["pa"] == 0 && env["la"] != 0) || (env["pb"] == 0 && env["lb"] != 0) {
+						continue
+					}
+					if env["pa"] == 0 {
+						continue // contract only for a non-nil first argument
+					}
+					on, err := x.evalGuards(gs, env)
+					if err != nil {
+						bad, pos = "path condition not understood: "+err.Error(), ps.Pos(ret.Pos())
+						break
+					}
+					if !on {
+						continue
+					}
+					isNilRet := kind == "nil" || (kind == "pb" && env["pb"] == 0)
+					if isNilRet {
+						bad, pos = "nil is returned for a non-nil first argument (path: "+guardsString(gs)+")", ps.Pos(ret.Pos())
+					}
+				}
+				return true
+			})
+			c.Check(bad == "", "label-set-helpers-keep-non-nil", construct, pos, "nil-label-set", bad)
+		}
 	}
 
 	const fe = "pkg/queryfrontend"
